@@ -179,19 +179,22 @@ Section Cols.
     unfold Batch.cols. rewrite map_map. apply map_ext. intros j. apply skipn_map.
   Qed.
 
+  Lemma cols_cons rs : exists c0 rest, cols rs = c0 :: rest /\ length c0 = length rs.
+  Proof.
+    unfold Batch.cols. destruct d as [|d']; [lia|].
+    cbn [seq map]. eexists. eexists. split; [reflexivity|apply map_length].
+  Qed.
+
   Lemma crefill_sim fuel size : forall s,
       crefill A cdraw_of fuel size (cs_of s) = option_map cs_of (refill row draw fuel size s).
   Proof.
-    induction fuel as [|f IH]; intros s; cbn [crefill Batch.refill].
-    - replace (length (hd [] (ccached (cs_of s)))) with (length (cached s))
-        by (unfold Batch.cs_of; cbn [ccached]; symmetry; apply hd_cols_length).
-      destruct (Nat.ltb (length (cached s)) size); reflexivity.
-    - replace (length (hd [] (ccached (cs_of s)))) with (length (cached s))
-        by (unfold Batch.cs_of; cbn [ccached]; symmetry; apply hd_cols_length).
-      destruct (Nat.ltb (length (cached s)) size); [|reflexivity].
-      rewrite <- (IH {| cached := cached s ++ draw (taken s); taken := S (taken s) |}).
-      f_equal. unfold Batch.cs_of, cdraw_of; cbn [ccached ctaken cached taken].
-      rewrite zip_app_cols. reflexivity.
+    induction fuel as [|f IH]; intros s; cbn [crefill Batch.refill];
+      destruct (cols_cons (cached s)) as [c0 [rest [Ec Hl]]];
+      unfold Batch.cs_of at 1; cbn [ccached]; rewrite Ec, Hl;
+      destruct (Nat.ltb (length (cached s)) size); try reflexivity.
+    rewrite <- (IH {| cached := cached s ++ draw (taken s); taken := S (taken s) |}).
+    f_equal. unfold Batch.cs_of, cdraw_of; cbn [ccached ctaken cached taken].
+    rewrite zip_app_cols. reflexivity.
   Qed.
 
   Lemma cget_sim fuel size s :
@@ -269,7 +272,7 @@ Section Final.
   Proof.
     assert (R : forall fu s, crefill Z f fu size s = crefill Z g fu size s).
     { induction fu as [|fu IH]; intros s; cbn [crefill]; [reflexivity|].
-      rewrite E, IH. reflexivity. }
+      destruct (ccached s) as [|c0 rest]; [reflexivity|]. rewrite E, IH. reflexivity. }
     induction k as [|k IH]; intros s; cbn [crun]; [reflexivity|].
     unfold cget. rewrite R. destruct (crefill Z g fuel size s) as [s1|]; [|reflexivity].
     rewrite IH. reflexivity.
